@@ -105,7 +105,8 @@ def rollback_case(rng, tier, seed, k):
     if dirmode:
         tmp = tempfile.mkdtemp(prefix='kv_c18_')
         cfg['factor_checkpoint_dir'] = os.path.join(tmp, 'factors')
-    hist_a = [['train', 1]] * pre + [['save']] + [['train', 1]] * extra + [['load_same', 0, 1]] + [['train', 1]] * post
+    nocopy = int(not dirmode and rng.random() < 0.6)
+    hist_a = [['train', 1]] * pre + [['save']] + [['train', 1]] * extra + [['load_same', 0, 1, nocopy]] + [['train', 1]] * post + [['ckpt_check', 0]]
     hist_b = [['train', 1]] * pre + [['save'], ['load', 0, 1]] + [['train', 1]] * post
     case = {'cfg': dict(cfg), 'history': hist_a, 'seed': seed + k, 'dir_mode': dirmode, 'kind': 'rollback', 'fresh_history': hist_b}
     probs = []
@@ -115,6 +116,10 @@ def rollback_case(rng, tier, seed, k):
         if not (wa.ok and wb.ok):
             probs.append(f'run failed: {wa.errors[:1]} {wa.deadlock} {dict(list(wa.exceptions.items())[:2])} {dict(list(wb.exceptions.items())[:2])}'[:400])
         else:
+            for r in range(D):
+                if not wa.results[r][-1]['unchanged']:
+                    probs.append(f'rank {r}: the state object passed to load_state_dict was changed by the training that followed '
+                                 f'(it no longer holds the factors of the step it was saved at)')
             for j in range(post):
                 for r in range(D):
                     ga = wa.results[r][pre + 1 + extra + 1 + j]['after']; gb = wb.results[r][pre + 2 + j]['after']
